@@ -19,7 +19,7 @@ RULE = ("C01's schemas and reachable states (a valid prefix history), then faili
         "fields/include_field.py during loads/load; whenever such an operation raises, M-same compares values at all "
         "depths, user-defined flags and identities of nested configurations before/after; non-trivial = >= 2 "
         "raising listed operations judged; distinct = distinct (schema, history)")
-REQUIRED = ("dotted_into_dict_rejections", "corrupt_include_files", "same_checks", "raised:set", "raised:set-sub", "raised:ctor", "raised:listop", "raised:dictop",
+REQUIRED = ("incomplete_objects_rejected", "incomplete_maps_rejected", "dotted_into_dict_rejections", "corrupt_include_files", "same_checks", "raised:set", "raised:set-sub", "raised:ctor", "raised:listop", "raised:dictop",
             "raised:loads-unparsable", "raised:loads-include", "failpoint_injections_raised")
 ASSUMPTIONS = ["only the kinds of operation listed in the property are judged (a tree that parses but fails validation "
                "half way, extend / slice / update with a bad element are outside the statement)",
@@ -117,7 +117,19 @@ def targeted_ops(rng, schema, env):
     must not stay behind."""
     ops = []
     for path, nd in history.all_paths(schema):
-        if "[]" in path or nd["kind"] != "field":
+        if "[]" in path:
+            continue
+        if nd["kind"] in ("schema", "ctype"):
+            # a map whose every value is fine but which leaves a required field of the sub-configuration out (also one
+            # level further down): rejected only by the whole-configuration validation at the very end
+            req = [ch for ch in model.stored_children(nd) if ch["kind"] == "field" and ch.get("params", {}).get("required")
+                   and ch["params"].get("default") is None and ch["family"] not in ("include",)]
+            if req and rng.random() < 0.8:
+                t = gen.tree_for(rng, nd, env, valid=True, partial=0.3)
+                t.pop(rng.choice(req)["key"], None)
+                ops.append({"op": "set", "route": rng.choice(["attr", "item"]), "path": path, "value": t, "incomplete_map": True})
+            continue
+        if nd["kind"] != "field":
             continue
         if nd["family"] == "list" and nd.get("item") and nd["item"]["kind"] != "field" and rng.random() < 0.8:
             for _ in range(2):
@@ -129,6 +141,16 @@ def targeted_ops(rng, schema, env):
                     ops.append({"op": "listop", "path": path, "name": rng.choice(["setitem", "setitem", "insert", "append"]),
                                 "i": rng.choice([0, 1, -1, -2]), "n": 0, "xs": [], "iter": "list", "a": None, "b": None, "x": t,
                                 "as_config": False})
+            # configuration *objects* whose values are all fine but which are incomplete (a required field left out),
+            # inserted / assigned at negative and past-the-end positions of the populated list
+            req = [ch for ch in model.stored_children(nd["item"]) if ch["kind"] == "field" and ch.get("params", {}).get("required")
+                   and ch["params"].get("default") is None]
+            for _ in range(3 if req else 0):
+                t = gen.tree_for(rng, nd["item"], env, valid=True, partial=0.2)
+                t.pop(rng.choice(req)["key"], None)
+                ops.append({"op": "listop", "path": path, "name": rng.choice(["insert", "insert", "setitem", "append"]),
+                            "i": rng.choice([-1, -2, -3, 1, 2, 5, 99]), "n": 0, "xs": [], "iter": "list", "a": None, "b": None, "x": t,
+                            "as_config": True, "incomplete_object": True})
         if nd["family"] == "dict" and nd.get("valf") and nd["valf"]["family"] not in ("any", "secure") and rng.random() < 0.8:
             kf, vf = nd.get("keyf"), nd["valf"]
 
@@ -176,6 +198,10 @@ def run(case, ctx, res):
         if out is None:
             res.count("ops_skipped")
             continue
+        if op.get("incomplete_object") and out["raised"] is not None:
+            res.count("incomplete_objects_rejected")
+        if op.get("incomplete_map") and out["raised"] is not None:
+            res.count("incomplete_maps_rejected")
         if out["raised"] is None:
             res.count("ops_accepted")
             continue
